@@ -106,6 +106,12 @@ inductive Acc (J V : Type)
   | param (p : Param J V)
   | command (c : Command J V)
 
+/-- one class of the MRO of the implementing class: its name, and whether `Feature` is one of its direct bases -/
+structure ClassInfo where
+  name : String
+  isFeature : Bool
+  deriving DecidableEq, Repr, Inhabited
+
 structure Module (J V : Type) where
   name : String
   /-- module property `export` -/
@@ -113,6 +119,8 @@ structure Module (J V : Type) where
   accs : List (Acc J V)
   /-- exported module properties (description, implementation, interface_classes, features, …) serialised -/
   props : List (String × J)
+  /-- `mycls.__mro__`, most derived class first (the class chain is data; what the node reports about it is derived) -/
+  mro : List ClassInfo := []
 
 abbrev Node (J V : Type) := List (Module J V)
 
